@@ -3,7 +3,7 @@ from __future__ import annotations
 
 import ast
 
-from ..astutil import decorators, dotted, is_const, kw, norm, walk_body
+from ..astutil import strip_docstring, decorators, dotted, is_const, kw, norm, walk_body
 from ..dtree import bool_function, leave, strip_casts
 from ..effects import scan_writes
 from ..finite import NeedAtom, discover_atoms, truth_table
@@ -174,12 +174,38 @@ def r_eq_install(ck: Checker) -> None:
     for st in walk_body(isc.node.body):
         if isinstance(st, ast.Assign) and isinstance(st.targets[0], ast.Attribute) and norm(st.targets[0].value) == "cls":
             inst[st.targets[0].attr] = norm(st.value)
+    # the installation happens on every path through __init_subclass__ (dataclass would otherwise generate its own __eq__ for the class)
+    from ..dtree import decision_tree
+    paths = decision_tree(strip_docstring(isc.node.body), try_as_body=True, max_atoms=8)
     for attr, fn in (("__eq__", "_eq_fn"), ("__hash__", "_hash_fn")):
         what = f"every subclass gets {attr} = {fn}"
-        if inst.get(attr) == fn:
-            ck.holds("R-EQ-INSTALL", isc, isc.node, what)
-        else:
+        missing = [lf for lf in paths if lf.outcome != "raise" and not any(
+            isinstance(st, ast.Assign) and isinstance(st.targets[0], ast.Attribute) and norm(st.targets[0].value) == "cls" and st.targets[0].attr == attr
+            and norm(st.value) == fn for st in lf.stmts)]
+        if inst.get(attr) != fn:
             ck.violation("R-EQ-INSTALL", isc, isc.node, what, construct=f"__init_subclass__: cls.{attr} = {inst.get(attr)}")
+        elif missing:
+            ck.violation("R-EQ-INSTALL", isc, isc.node, what, evaluations=len(paths),
+                         construct=f"__init_subclass__: cls.{attr} = {fn} is skipped when {missing[0].assign} (the class then gets the dataclass-generated {attr})")
+        else:
+            ck.holds("R-EQ-INSTALL", isc, isc.node, what, evaluations=len(paths))
+    # the base class itself keeps the dataclass-generated __eq__: origin must take part in it, the derived ids must not
+    from ..dcmodel import own_fields
+    base = ck.repo.cls(NODE, "ASTNode")
+    flds = {f_.name: f_ for f_ in own_fields(base)}
+    what = "ASTNode's own fields: origin is compared by the generated __eq__ of the base class, id / content_id are not"
+    probs = []
+    if "origin" in flds and flds["origin"].compare is False:
+        probs.append("origin is declared compare=False (plain ASTNode instances compare equal whatever their origin)")
+    for nm in ("id", "content_id"):
+        if nm in flds and flds[nm].compare is not False:
+            probs.append(f"{nm} is not declared compare=False")
+    if probs:
+        ck.violation("R-EQ-INSTALL", (base.mod.rel, "class ASTNode"), base.node, what, construct=f"class ASTNode: {probs[0]}")
+    elif "origin" in flds:
+        ck.holds("R-EQ-INSTALL", (base.mod.rel, "class ASTNode"), base.node, what)
+    else:
+        raise Unsupported("class ASTNode: field origin not found", base.node)
     c = ck.repo.cls(NODE, "ASTNode")
     cl = {}
     for st in c.node.body:
